@@ -427,4 +427,149 @@ theorem rot_core (hG : ValidGroup G) (S : State) (hS : StateOk G S) (r : ℕ)
         apply rotCheck_ok hG S hS Gv alpha beta k _ _ _ hGvne (hltr _) (hgam k)
         rw [hfk.2.2]
         exact rot_sim_alg hG _ _ _ hgq hh0 hGvne _ _ _
+/-! ### VRHE: prover's moves and the verifier's equations -/
+
+/-- the true statement: `Y_k = X_{k-r} · (g^{s_k}, h^{s_k})` with `X` in the subgroup of order `q` -/
+structure RotStmt (G : Group) [Fact (Nat.Prime G.p.natAbs)] (S : State) (r : ℕ) (s : List ℤ)
+    (X Y : List Card) : Prop where
+  n2 : 2 ≤ s.length
+  r_lt : r < s.length
+  lX : X.length = s.length
+  lY : Y.length = s.length
+  subX : ∀ j < s.length, Sub G (X.getD j ⟨0, 0⟩).c1 ∧ Sub G (X.getD j ⟨0, 0⟩).c2
+  rel1 : ∀ k < s.length, toF G (Y.getD k ⟨0, 0⟩).c1 =
+    toF G (X.getD (subMod s.length r k) ⟨0, 0⟩).c1 * toF G G.g ^ s.getD k 0
+  rel2 : ∀ k < s.length, toF G (Y.getD k ⟨0, 0⟩).c2 =
+    toF G (X.getD (subMod s.length r k) ⟨0, 0⟩).c2 * toF G S.h ^ s.getD k 0
+
+theorem RotStmt.subY {S : State} {r : ℕ} {s : List ℤ} {X Y : List Card} (hG : ValidGroup G)
+    (hS : StateOk G S) (st : RotStmt G S r s X Y) (k : ℕ) (hk : k < s.length) :
+    Sub G (Y.getD k ⟨0, 0⟩).c1 ∧ Sub G (Y.getD k ⟨0, 0⟩).c2 := by
+  have hx := st.subX _ (subMod_lt st.r_lt hk)
+  unfold Sub at *
+  rw [st.rel1 k hk, st.rel2 k hk, mul_pow, mul_pow, hx.1, hx.2, zpow_pow_q (g_sub hG),
+    zpow_pow_q (h_sub S hS)]
+  simp
+
+theorem mem_of_getD {β} {l : List β} {d : β} {P : β → Prop} (h : ∀ i < l.length, P (l.getD i d)) :
+    ∀ e ∈ l, P e := by
+  intro e he
+  obtain ⟨j, hj, rfl⟩ := List.getElem_of_mem he
+  have := h j hj
+  rwa [List.getD_eq_getElem _ _ hj] at this
+
+theorem vrhe_core (hG : ValidGroup G) (S : State) (hS : StateOk G S) (r : ℕ) (s : List ℤ)
+    (X Y : List Card) (st : RotStmt G S r s X Y) (alpha : List ℤ) (lα : alpha.length = s.length)
+    (hα : InQ G.q alpha) (ut opm rest : List ℤ) (hut : InQ G.q ut) (hopm : InQ G.q opm)
+    (lut : ut.length = 2 * s.length) (lopm : opm.length = 3 * s.length)
+    (peer : List (Option ℤ)) (sent : List ℤ) (tr : Bool) :
+    ∃ x, vrheMove2 S r s Y alpha ⟨peer, ut ++ (opm ++ rest), sent, tr⟩ =
+        .ok x ⟨peer, rest, sent ++ x.hk ++ flatCards x.Ak ++ [x.v] ++ x.fk ++ flatCards x.Fk, tr⟩ ∧
+      Move2Ok G S s.length r s Y alpha ut opm x ∧
+      (∀ e ∈ x.hk, checkElement .schnorr S.G e = true) ∧
+      (∀ e ∈ x.Ak, checkElement .schnorr S.G e.c1 = true ∧ checkElement .schnorr S.G e.c2 = true) ∧
+      (∀ e ∈ x.fk, checkElement .schnorr S.G e = true) ∧
+      (∀ e ∈ x.Fk, checkElement .schnorr S.G e.c1 = true ∧ checkElement .schnorr S.G e.c2 = true) ∧
+      inRange S.G.q x.v = true ∧
+      vrheFinal S X x.Ak alpha x.v = .ok true ∧
+      ∀ lambda, 0 ≤ lambda ∧ lambda < G.q →
+        (vrheResp S.G.q s.length x lambda).1.length = s.length ∧
+        (vrheResp S.G.q s.length x lambda).2.1.length = s.length ∧
+        (vrheResp S.G.q s.length x lambda).2.2.length = s.length ∧
+        (∀ e ∈ (vrheResp S.G.q s.length x lambda).1, inRange S.G.q e = true) ∧
+        (∀ e ∈ (vrheResp S.G.q s.length x lambda).2.1, inRange S.G.q e = true) ∧
+        (∀ e ∈ (vrheResp S.G.q s.length x lambda).2.2, inRange S.G.q e = true) ∧
+        vrheChecks S Y lambda x.hk x.Ak x.fk x.Fk (vrheResp S.G.q s.length x lambda).1
+          (vrheResp S.G.q s.length x lambda).2.1 (vrheResp S.G.q s.length x lambda).2.2 = .ok true := by
+  have hq := hG.q_pos
+  have hg0 := g_ne hG
+  have hh0 := h_ne hG S hS
+  have hgq := g_sub hG
+  have hhq := h_sub S hS
+  have hYs := st.subY hG hS
+  have hY0 : ∀ i < s.length, toF G (Y.getD i ⟨0, 0⟩).c1 ≠ 0 ∧ toF G (Y.getD i ⟨0, 0⟩).c2 ≠ 0 :=
+    fun i hi => ⟨(hYs i hi).1.ne_zero hG, (hYs i hi).2.ne_zero hG⟩
+  obtain ⟨x, hx, ok⟩ := vrheMove2_spec hG S hS r s Y alpha ut opm rest peer sent tr hα hut hopm
+    lut lopm hY0
+  have hv : x.v = (∑ i ∈ Finset.range s.length,
+      (arOf s.length r alpha i * s.getD i 0 % G.q + ut.getD (2 * i + 1) 0) % G.q) % G.q := by
+    rw [ok.v_eq, foldl_add_mod G.q hq (fun i => (arOf s.length r alpha i * s.getD i 0 % G.q +
+      ut.getD (2 * i + 1) 0) % G.q) _ 0 (le_refl _) hq, zero_add, sum_map_range]
+  refine ⟨x, hx, ok, ?_, ?_, ?_, ?_, ?_, ?_, ?_⟩
+  · rw [hS.grp]
+    apply mem_of_getD (P := fun e => checkElement .schnorr G e = true)
+    intro i hi
+    rw [ok.lhk] at hi
+    exact (ok.hk i hi).elem hG (by rw [mul_pow, zpow_pow_q hgq, zpow_pow_q hhq, one_mul])
+  · rw [hS.grp]
+    apply mem_of_getD (P := fun e : Card => checkElement .schnorr G e.c1 = true ∧
+      checkElement .schnorr G e.c2 = true)
+    intro i hi
+    rw [ok.lAk] at hi
+    exact ⟨(ok.Ak1 i hi).elem hG (by rw [mul_pow, zpow_pow_q (hYs i hi).1, zpow_pow_q hgq, one_mul]),
+      (ok.Ak2 i hi).elem hG (by rw [mul_pow, zpow_pow_q (hYs i hi).2, zpow_pow_q hhq, one_mul])⟩
+  · rw [hS.grp]
+    apply mem_of_getD (P := fun e => checkElement .schnorr G e = true)
+    intro i hi
+    rw [ok.lfk] at hi
+    exact (ok.fk i hi).elem hG (by rw [mul_pow, zpow_pow_q hgq, zpow_pow_q hhq, one_mul])
+  · rw [hS.grp]
+    apply mem_of_getD (P := fun e : Card => checkElement .schnorr G e.c1 = true ∧
+      checkElement .schnorr G e.c2 = true)
+    intro i hi
+    rw [ok.lFk] at hi
+    exact ⟨(ok.Fk1 i hi).elem hG (by rw [mul_pow, zpow_pow_q (hYs i hi).1, zpow_pow_q hgq, one_mul]),
+      (ok.Fk2 i hi).elem hG (by rw [mul_pow, zpow_pow_q (hYs i hi).2, zpow_pow_q hhq, one_mul])⟩
+  · rw [hS.grp, hv]; exact inRange_of_mod hG _
+  · -- the product equation
+    apply vrheFinal_ok hG S hS X x.Ak alpha x.v
+    · intro j hj; rw [lα] at hj
+      exact ⟨(st.subX j hj).1.ne_zero hG, (st.subX j hj).2.ne_zero hG⟩
+    · rw [hv]; exact natAbs_mod_lt hG _
+    · rw [prod_map_range, lα, hv]
+      apply final_alg hG s.length r st.r_lt (fun j => toF G (X.getD j ⟨0, 0⟩).c1)
+        (fun j hj => (st.subX j hj).1.ne_zero hG) (fun j => alpha.getD j 0) (fun j => s.getD j 0)
+        (fun j => ut.getD (2 * j + 1) 0) (toF G G.g) hgq
+      intro j hj
+      rw [(ok.Ak1 j hj).2.2, st.rel1 j hj]; rfl
+    · rw [prod_map_range, lα, hv]
+      apply final_alg hG s.length r st.r_lt (fun j => toF G (X.getD j ⟨0, 0⟩).c2)
+        (fun j hj => (st.subX j hj).2.ne_zero hG) (fun j => alpha.getD j 0) (fun j => s.getD j 0)
+        (fun j => ut.getD (2 * j + 1) 0) (toF G S.h) hhq
+      intro j hj
+      rw [(ok.Ak2 j hj).2.2, st.rel2 j hj]; rfl
+  · intro lambda hlam
+    rw [hS.grp]
+    have hmem : ∀ (g : ℕ → ℤ), (∀ j, (g j).natAbs < G.q.natAbs) →
+        ∀ e ∈ (List.range s.length).map g, inRange G.q e = true := by
+      intro g hg e he
+      obtain ⟨j, -, rfl⟩ := List.mem_map.mp he
+      simpa [inRange] using hg j
+    refine ⟨by simp [vrheResp], by simp [vrheResp], by simp [vrheResp],
+      hmem _ (fun j => natAbs_mod_lt hG _), hmem _ (fun j => natAbs_mod_lt hG _),
+      hmem _ (fun j => natAbs_mod_lt hG _), ?_⟩
+    simp only [vrheChecks, vrheResp, st.lY]
+    rw [allE_range_true]
+    · simp only [bind, Except.bind, Bool.not_true, Bool.false_eq_true, if_false]
+      apply allE_range_true
+      intro i hi
+      rw [getD_map_range _ _ _ _ hi, getD_map_range _ _ _ _ hi, ok.ar_eq, getD_map_range _ _ _ _ hi,
+        ok.ut_eq, ok.opm_eq]
+      have hA1 := ok.Ak1 i hi
+      have hA2 := ok.Ak2 i hi
+      apply vrheCheck2_ok hG S hS lambda _ _ _ _ _ (hY0 i hi).1 (hY0 i hi).2 ?_ ?_ (natAbs_mod_lt hG _)
+      · rw [hA1.2.2, (ok.Fk1 i hi).2.2]
+        exact expzk_mod hG _ _ (hYs i hi).1 hgq _ _ _ _ _
+      · rw [hA2.2.2, (ok.Fk2 i hi).2.2]
+        exact expzk_mod hG _ _ (hYs i hi).2 hhq _ _ _ _ _
+      · rw [hA1.2.2]; exact mul_ne_zero (zpow_ne_zero _ (hY0 i hi).1) (zpow_ne_zero _ hg0)
+      · rw [hA2.2.2]; exact mul_ne_zero (zpow_ne_zero _ (hY0 i hi).2) (zpow_ne_zero _ hh0)
+    · intro i hi
+      rw [getD_map_range _ _ _ _ hi, getD_map_range _ _ _ _ hi, ok.ar_eq, getD_map_range _ _ _ _ hi,
+        ok.ut_eq, ok.opm_eq]
+      have hk := ok.hk i hi
+      apply vrheCheck1_ok hG S hS lambda _ _ _ _ ?_ (natAbs_mod_lt hG _) (natAbs_mod_lt hG _)
+      · rw [hk.2.2, (ok.fk i hi).2.2]
+        exact expzk_mod hG _ _ hgq hhq _ _ _ _ _
+      · rw [hk.2.2]; exact mul_ne_zero (zpow_ne_zero _ hg0) (zpow_ne_zero _ hh0)
 end Tmcg.Args
